@@ -329,6 +329,64 @@ def run(ctx):
             ctx.ob("R7", "recursion:matcher-tree:%s" % meth, True, "%s recurses through the combinators (%d impls): depth = nesting depth of the expression tree, which build_matcher_tree's own (much larger) frames have already survived" % (meth, len(comp)), how="call-graph cycle (reviewed)", nontrivial=False)
         else:
             ctx.ob("R7", "recursion:%s" % names[0], False, "unreviewed recursion cycle %s" % names, how="call-graph cycle")
+    # ---- R9 numbers are converted only from text established to be digits -------------------------------------------
+    # (Rust's integer FromStr takes a leading '+'; find's operands do not)
+    INTS = ("u8", "u16", "u32", "u64", "u128", "usize", "i8", "i16", "i32", "i64", "i128", "isize")
+    n_sites = 0
+    for p in sorted(prog.fns):
+        f = prog.fns[p]
+        if f.crate != "findutils" or not p.startswith("findutils::find::") or "::tests::" in p:
+            continue
+        for b, t in f.calls():
+            if t.j.get("callee_name") != "parse" or not (t.callee or "").startswith("core::str::"):
+                continue
+            inst = (t.j.get("callee_inst") or "")
+            ty = inst.rsplit("::<", 1)[-1].rstrip(">") if "::<" in inst else "?"
+            if ty not in INTS and not (len(ty) == 1 and ty.isupper()) and ty != "?":
+                continue           # a FromStr of the repository's own (Unit, ...): decided by its dispatch table (R6)
+            n_sites += 1
+            why = _digits_only(prog, f, b, t)
+            ctx.ob("R9", "digits-only:%s" % prim.short(p), why is not None,
+                   "str::parse::<%s> in %s converts %s; integer FromStr accepts a leading '+' (and, for some types, '-'), so the text must have been established to consist of ASCII digits "
+                   "(an all-digits test that dominates the call, a regular-expression group that is \\d+, or a counted run of digits): %s" % (ty, p, prim.origin_of_operand(f, t.args[0]).fmt()[:120], why or "no such evidence found"),
+                   fn=f, where=prim.site(f, b), how="dominating guard (normal form) / provenance of the receiver / constant pattern")
+    ctx.floor("R9", "integer conversions of operand text", n_sites, 5)
+    # ---- R10 a token is classified once, at the scan position ---------------------------------------------------------
+    bmt = prog.fns.get(C.BMT)
+    if bmt is not None:
+        il = C.scan_index(bmt)
+        LOOKBACK_OK = {"{}": "-exec ... {} +: the plus sign ends the command only directly after {}"}
+        n_tests = 0
+        for st in prim.str_tests(bmt):
+            if st.get("subject") is None:
+                continue
+            e = prim.expand_single_def_vars(bmt, st["subject"])
+            idx = [x for x in e.walk() if x.k == "index" and any(y.k == "arg" and y.a["name"] == "args" for y in x.walk())]
+            if not idx:
+                continue
+            n_tests += 1
+            ie = idx[0].kids[1].strip()
+            core = ie.kids[0].strip() if ie.k == "field" and ie.kids else ie
+            if core.k == "bin" and core.a in ("Sub", "SubWithOverflow"):
+                ctx.ob("R10", "lookback:%s" % st["lit"], st["lit"] in LOOKBACK_OK,
+                       "build_matcher_tree compares the token at %s with %r: a token before the scan position has already been consumed in some role (possibly as the operand of a primary, e.g. `-name (`), "
+                       "so its text says nothing about that role; only these look-backs are reviewed: %s" % (ie.fmt(), st["lit"], LOOKBACK_OK), fn=bmt, where=prim.site(bmt, st["bb"]), how="string-test table + index provenance")
+        ctx.floor("R10", "token tests in build_matcher_tree", n_tests, 80)
+        # the 'empty parentheses' diagnostic is tied to "nothing parsed since the opening parenthesis"
+        for b in bmt.reachable():
+            for s in bmt.blocks[b].stmts:
+                pass
+        for b, t in bmt.calls():
+            if any(a.kind == "const" and isinstance(a.const.get("v"), str) and "empty parentheses" in a.const["v"] for a in t.args) or \
+               any(isinstance(cst.get("v"), str) and "empty parentheses" in cst["v"] for a in t.args for cst in prim.origin_of_operand(bmt, a).consts()):
+                atoms = prim.norm_guards(prim.dominating_guards(bmt, b))
+                is_i = lambda x: x.strip().k == "var" and x.strip().a.get("local") in il
+                is_start = lambda x: x.strip().k == "arg" and x.strip().a.get("name") == "arg_index"
+                ok = prim.atom_holds(atoms, "eq", is_i, is_start) is not None
+                ctx.ob("R10", "empty-parentheses-iff-nothing-parsed", ok,
+                       "the 'empty parentheses' rejection must be decided by the scan position being where this (sub)expression started; guards here: %s" % prim.guards_fmt(prim.dominating_guards(bmt, b))[:300],
+                       fn=bmt, where=prim.site(bmt, b), how="dominating guard (normal form)")
+                break
     # ---- R8 progress ------------------------------------------------------------------------------------------------------------
     for path, loops in ((C.PARSE_ARGS, 2), (C.BMT, 1)):
         f = ctx.fn("R8", path)
@@ -435,3 +493,114 @@ def _loop_heads_testing(f, i):
                 break
             cur = nx[0]
     return heads
+
+
+def _digit_closure(prog, o):
+    """does the origin mention a closure whose result is char/u8::is_ascii_digit (or is_digit(10)) of its argument, unnegated"""
+    for x in o.walk():
+        if x.k == "closure" or (x.k == "const" and isinstance(x.a, dict) and str(x.a.get("v", "")).startswith("closure:")):
+            pass
+    import re as _re
+    for m in _re.finditer(r"closure:([A-Za-z0-9_:<>' ,{}#]+?\{closure#\d+\})", o.fmt()):
+        cf = prog.fns.get(m.group(1))
+        if cf is None:
+            continue
+        rets = prim.origin_of_local(cf, 0).strip()
+        if rets.k == "call" and rets.a["name"] in ("is_ascii_digit",):
+            return True
+    return False
+
+
+def _group_text(pat, n):
+    """text of capture group n (1-based) of a regular expression literal; non-capturing (?:...) groups are not counted"""
+    idx = 0
+    stack = []
+    i = 0
+    while i < len(pat):
+        ch = pat[i]
+        if ch == "\\":
+            i += 2
+            continue
+        if ch == "[":
+            j = pat.find("]", i + 2)
+            i = (j if j > 0 else len(pat)) + 1
+            continue
+        if ch == "(":
+            cap = True
+            start = i + 1
+            if pat.startswith("(?", i):
+                if pat.startswith("(?P<", i) or (pat.startswith("(?<", i) and not pat.startswith("(?<=", i) and not pat.startswith("(?<!", i)):
+                    start = pat.index(">", i) + 1
+                else:
+                    cap = False
+            if cap:
+                idx += 1
+            stack.append((idx if cap else None, start))
+        elif ch == ")" and stack:
+            gi, start = stack.pop()
+            if gi == n:
+                return pat[start:i]
+        i += 1
+    return None
+
+
+def _digits_only(prog, f, b, t):
+    import re as _re
+    recv = prim.origin_of_operand(f, t.args[0])
+    # A. an all-digits test dominates the call
+    atoms = prim.norm_guards(prim.dominating_guards(f, b))
+    for at in atoms:
+        a = at["a"].strip()
+        if at["rel"] == "eq" and at["b"].strip().k == "const" and at["b"].strip().a.get("v") is True and a.k == "call" and a.a["name"] == "all" and _digit_closure(prog, a):
+            subj = [x for x in a.walk() if x.k == "arg"]
+            rsub = [x for x in recv.walk() if x.k == "arg"]
+            if subj and rsub and subj[0].a.get("name") == rsub[0].a.get("name"):
+                return "all(is_ascii_digit) holds for %s" % subj[0].a.get("name")
+    # B. a capture group of a constant pattern
+    src = recv
+    if f.closure_of:
+        # the closure's argument is what the parent hands to map/map_or/and_then: a Match of Captures::get(n)
+        parent = prog.fns.get(f.closure_of)
+        if parent is not None and any(x.k == "arg" for x in recv.walk()):
+            for pb, pt in parent.calls():
+                if any(a.kind != "const" and ("closure:%s" % f.path) in prim.origin_of_operand(parent, a).fmt() for a in pt.args) and pt.j.get("callee_name") in ("map", "map_or", "map_or_else", "and_then"):
+                    src = prim.expand_single_def_vars(parent, prim.origin_of_operand(parent, pt.args[0]))
+    s = src.fmt()
+    m = _re.search(r"(?:Index::index|get)\(&?\(?(?:.*?)Regex::captures\(.*?Regex::new\(&\*'((?:[^'\\\\]|\\\\.)*)'\).*?, (\d+)\)", s)
+    pat = None
+    if m:
+        pat, n = m.group(1), int(m.group(2))
+    else:
+        lits = [c.get("v") for c in src.consts() if isinstance(c.get("v"), str) and c.get("v").startswith("^")]
+        nums = [c.get("v") for c in src.consts() if isinstance(c.get("v"), int) and not isinstance(c.get("v"), bool)]
+        calls = [c.a["name"] for c in src.call_nodes()]
+        if len(lits) == 1 and "captures" in calls and ("index" in calls or "get" in calls) and nums:
+            pat, n = lits[0], nums[-1]
+    if pat is not None:
+        g = _group_text(pat.replace("\\\\", "\\"), n)
+        if g is not None and _re.fullmatch(r"(\\d|\[0-9\])(\+|\{\d+(,\d*)?\})", g):
+            return "capture group %d of %r is %r" % (n, pat, g)
+        return None
+    # C. a counted run of digits: text[0..k] where k only ever grows by one under an is_ascii_digit test of the text's front
+    rng = [x for x in recv.walk() if x.k == "agg" and "Range" in str(x.a)]
+    ks = [x for x in recv.walk() if x.k == "var"]
+    if "Range" in s and ks:
+        k = ks[-1].a.get("local")
+        good = True
+        n_inc = 0
+        for bb, kind, obj in prim.local_defs(f).get(k, []):
+            if kind != "assign" or bb not in f.reachable():
+                continue
+            o = prim._origin_of_def(f, (bb, kind, obj), 6, set()).strip()
+            core = o.kids[0].strip() if o.k == "field" and o.kids else o
+            if core.k == "const" and core.a.get("v") == 0:
+                continue
+            if core.k == "bin" and core.a in ("Add", "AddWithOverflow") and [c.get("v") for c in core.consts()] == [1]:
+                gs = prim.norm_guards(prim.dominating_guards(f, bb))
+                if any(at["rel"] == "eq" and at["b"].strip().a.get("v") is True and _digit_closure(prog, at["a"]) for at in gs if at["b"].strip().k == "const"):
+                    n_inc += 1
+                    continue
+            good = False
+        if good and n_inc:
+            return "the slice ends at a count that grows by one per is_ascii_digit character"
+    return None
